@@ -781,8 +781,11 @@ theorem foldl_emit_field {α : Type} (g : St → α) (hg : ∀ (t : St) (e : Ev)
   | cons x l ih => exact (ih _).trans (hg _ _)
 
 /-- Reading (and taking) the readers of a body modifies system-event data only. -/
+theorem sameD_bumpLocal (s : St) (w : Option Nat) : SameD s (bumpLocal s w) := ⟨by simp, by simp, by simp⟩
+
 theorem dq_observe (s : St) (w : Option Nat) : DQ s (observe s w).2 := by
   unfold observe; dsimp only
+  refine DQ.right ?_ (sameD_bumpLocal _ w)
   split
   · rename_i y hy
     split
